@@ -941,7 +941,7 @@ func asBool(o Object) Boolean {
 //@ loop 1 invariant [C02.load] -1 <= j && j < len(intp.DictStack) && (forall k :: j < k && k < len(intp.DictStack) ==> !has(intp.DictStack[k], name))
 
 //@ func isStringOrArray
-//@ ensures result == (isType(o, String) || isType(o, Array))
+//@ ensures [C07.bfrange.dsttype] result == (isType(o, String) || isType(o, Array))
 
 // C07: a range mapping is stored only if its bounds have equal length and are
 // not reversed (low <= high bytewise) and its destination has the type the
